@@ -73,7 +73,7 @@ class C13Oracle(Oracle):
             if p.ptype != "initial" or p.opaque:
                 continue
             if ep.is_client and n < 1200:
-                disc = "client-initial-datagram-below-1200"
+                disc = "client-initial-datagram-below-1200:" + ("ack-eliciting" if p.ack_eliciting else "ack-only")
                 if self.flight_budget is not None and self.flight_budget < 1200:
                     disc += "/flight-budget-below-1200"
                 raise Violation("c13.padding", disc,
